@@ -253,19 +253,16 @@ def nn_native_battery(seed=0):
 def check(run):
     funcs, info = engine.load_mir('ibig')
     run.mir_info.append(info)
-    leaf_and_envelope(run, funcs)
-    heap_order(run, funcs)
-    nnrules.shift_reciprocity(run, funcs, 'C17')
-    try:
-        iterator_next(run, funcs)
-    except (engine.Inconclusive, __import__('mirsym.interp').interp.Unsupported) as e:
-        # the loop could not be encoded for this tree (construct outside the model table): no solver verdict on it; the statement of C17 is
-        # evaluated on real visit sequences - a violation observed there is real, observing nothing leaves the run inconclusive
+    run.guard(leaf_and_envelope, funcs)
+    run.guard(heap_order, funcs)
+    run.guard(nnrules.shift_reciprocity, funcs, 'C17')
+    run.guard(iterator_next, funcs)
+    if run.inconclusive and not run.violations:
+        # part of the search could not be encoded for this tree (construct outside the model table): no solver verdict on it; the statement of
+        # C17 is evaluated on real visit sequences - a violation observed there is real, observing nothing leaves the run inconclusive
         bad = nn_native_battery(run.seed)
         if bad:
-            run.violation('C17 iterator next not encodable (%s); native visit sequence: %s' % (str(e)[:120], bad[0]), engine.save_replay('C17', bad[1]))
-        else:
-            run.inconclusive.append('C17 iterator next: %s' % str(e)[:300])
+            run.violation('C17: no solver verdict (%s); native visit sequence: %s' % (run.inconclusive[0][:160], bad[0]), engine.save_replay('C17', bad[1]))
     run.assume('rstar (bulk load, node envelopes contain their children, nearest_neighbor_iter) is trusted third-party code: not encoded')
     run.assume('ordering among exactly equal distances and ulp-level rounding of distances: outside the claim')
     return run.finish(LEVEL, EXPLANATION, trusted=['rustc -Zunpretty=mir', 'z3 5.1.0 / 4.8.12, cvc5 1.0.3', 'rstar', 'std BinaryHeap'])
